@@ -25,7 +25,13 @@ input), all of them rules that belong to the checkers themselves:
  CTL = LTL on the common fragment          R-LTL-0..5 (necessary conditions of
                                            the tableau procedure) + R-CTL-*
  text = object                             R-GR-4 (each modelcheck parses text
-                                           with the parser of its own logic)
+                                           with the parser of its own logic),
+                                           R-PURE-3 (no checker modifies the
+                                           formula object it is given, so the
+                                           object stays what the text says)
+ CTL* = CTL / LTL below the quantifiers    R-CTLS-1/2 (the CTL* eliminator
+                                           rebuilds the same operator over
+                                           the processed operands)
 
 Not decided: the agreement itself (that needs exactness of both sides, see
 C01-C03: partial).
@@ -41,9 +47,16 @@ def run(prog, tier, seed):
     res = c01.own_rules(prog, tier, T) + c02.own_rules(prog, tier, T)
     D = T(c03.discover, prog)
     if D is not None:
-        res = res + T.results(T(c03.rule_ctls45, prog, D, _n=2))
+        res = res + T.results(T(c03.rule_ctls45, prog, D, _n=2),
+                              T(c03.rule_ctls12, prog, D, _n=2))
     else:
-        T.skipped('R-CTLS-4, R-CTLS-5')
+        T.skipped('R-CTLS-1, R-CTLS-2, R-CTLS-4, R-CTLS-5')
+    # text vs object: an object formula must still be the formula the caller
+    # wrote after it has been checked once (formulas are never modified)
+    from . import c07
+    E = T(c07.effects, prog)
+    if E is not None:
+        res = res + T.results(T(c07.rule_pure3, prog, E))
     G = T(c09.grammars, prog)
     res = res + T.results(
         T(c12.rule_scc, prog), T(c12.rule_scc6, prog), T(c05.rule_rw3, prog),
